@@ -18,22 +18,28 @@ Definition spec_getattr (matched : bool) (g1 g3 : option string) (key : Z * Z) (
          (if in_compl then Read Compliance key else RaiseAttr)
   else RaiseAttr.
 
+(** group 1 of REGEX_CIJ is the first parenthesis of its text, which reads ^(c|s): whenever the regex matches,
+    group 1 is "c" or "s" (a syntactic fact about the regex text, checked by the translator) *)
+Lemma tie_regex_group1 : g_regex_group1_is_c_or_s = true.
+Proof. reflexivity. Qed.
+
 Lemma tie_getattr : forall matched g1 g3 key in_mod in_compl,
+  (matched = true -> g1 = Some "c" \/ g1 = Some "s") ->
   g_getattr matched g1 g3 key in_mod in_compl = spec_getattr matched g1 g3 key in_mod in_compl.
 Proof.
-  intros matched g1 g3 key in_mod in_compl. unfold g_getattr, spec_getattr.
-  destruct matched, in_mod, in_compl; cbn [negb]; try reflexivity;
-    destruct (grp_eqb g3 "t"); try reflexivity;
-    (destruct g1 as [x|]; cbn [grp_eqb]; [|reflexivity]);
-    (destruct (String.eqb_spec x "c") as [->|Hc]; [reflexivity|]);
-    (destruct (String.eqb_spec x "s") as [->|Hs]; [reflexivity|]);
-    try reflexivity;
-    destruct (String.eqb x "t"); reflexivity.
+  intros matched g1 g3 key in_mod in_compl Hg1. unfold g_getattr, spec_getattr.
+  destruct matched; [destruct (Hg1 eq_refl) as [-> | ->] | ]; cbn;
+    destruct in_mod, in_compl; cbn; try reflexivity;
+    destruct g3 as [y|]; cbn; try reflexivity;
+    destruct (String.eqb_spec y "t") as [-> | Ht]; cbn; try reflexivity;
+    destruct (String.eqb_spec y "s") as [-> | Hs]; cbn; try reflexivity.
 Qed.
 
 Corollary tie_getattr_missing_raises : forall g3 key b,
   g_getattr true (Some "c") g3 key false b = RaiseAttr /\ g_getattr true (Some "s") g3 key b false = RaiseAttr.
-Proof. intros g3 key b. rewrite !tie_getattr. unfold spec_getattr. cbn. split; reflexivity. Qed.
+Proof.
+  intros g3 key b. rewrite !tie_getattr by (intros _; auto). unfold spec_getattr. cbn. split; reflexivity.
+Qed.
 
 (** c_("IJ") = ModulusRepresentation.create(I, J) = from_voigt(I, J), then .voigt *)
 Definition key_of (ds : list Z) : Z * Z :=
@@ -61,8 +67,10 @@ Lemma key_of_sorted :
 Proof. vm_compute. reflexivity. Qed.
 
 Theorem tie_group_getattr :
-  (forall matched g1 g3 key in_mod in_compl,
-     g_getattr matched g1 g3 key in_mod in_compl = spec_getattr matched g1 g3 key in_mod in_compl)
+  g_regex_group1_is_c_or_s = true
+  /\ (forall matched g1 g3 key in_mod in_compl,
+       (matched = true -> g1 = Some "c" \/ g1 = Some "s") ->
+       g_getattr matched g1 g3 key in_mod in_compl = spec_getattr matched g1 g3 key in_mod in_compl)
   /\ forallb name_ok g_used_names = true.
-Proof. split; [exact tie_getattr | exact tie_used_names]. Qed.
+Proof. split; [exact tie_regex_group1 | split; [exact tie_getattr | exact tie_used_names]]. Qed.
 Print Assumptions tie_group_getattr.
